@@ -1,5 +1,5 @@
 (* Model/C16Run.v - case type and checker evaluated on harness-generated cases (C16) *)
-From ReqV Require Export Lib.Bytes Model.HeaderOrder Model.HeaderCollect Model.HeaderMerge Model.HeaderSeq Model.HeaderResend Model.HeaderFrag Model.HeaderRedirect Model.HeaderKeepAlive.
+From ReqV Require Export Lib.Bytes Model.HeaderOrder Model.HeaderCollect Model.HeaderMerge Model.HeaderSeq Model.HeaderResend Model.HeaderFrag Model.HeaderRedirect Model.HeaderKeepAlive Model.HeaderCloneHdr.
 
 Inductive seq_outcome :=
 | SSent (obs : list line)    (* the origin's view of that request *)
@@ -40,7 +40,10 @@ Inductive c16_case :=
 | RedirCase (initial : list kv) (names : list bytes) (strip : bool) (hop : list kv)
 (* an HTTP/1.1 request through a client with keep-alives disabled: like WireCase 1, the transport's own
    Connection: close included *)
-| WireKACase (q : creq) (obs : list line).
+| WireKACase (q : creq) (obs : list line)
+(* a family of clients made with Clone(): the operations on the common headers, and per member the
+   client's header map afterwards (sorted by key) *)
+| CloneHdrCase (ops : list hfam_op) (members : list (nat * list kv)).
 
 Fixpoint ascending (l : list nat) : bool :=
   match l with
@@ -107,6 +110,9 @@ Definition c16_check (c : c16_case) : bool :=
   | WireKACase q obs =>
       let order := order_list (c_hdr q) in
       regular_check order (is_nil order) false (h1_lines_ka true q) obs
+  | CloneHdrCase ops members =>
+      let s := hfam_run ops in
+      forallb (fun m : nat * list kv => list_eqb kv_eqb (sort_by_key (nth (fst m) s [])) (snd m)) members
   | ResendCase steps => resend_check [] steps
   | FragCase prio max len frames =>
       list_eqb (fun a b : N * bool => (fst a =? fst b)%N && Bool.eqb (snd a) (snd b)) (write_headers_len prio max len) frames
